@@ -2152,3 +2152,150 @@ func ruleTrailingLiteralSizes(c *Ctx, rule string) {
 		c.unresolvedRoot("size test in " + fnKey(helper))
 	}
 }
+
+// ruleFieldEncoderEnded: C06.m. A writer object that holds the connection's
+// response encoder (and with it Conn.encMutex) in a field releases it in its
+// Close on every path, error paths included: every return of a method that
+// ends the encoder through the field has passed end(), unless the field was
+// found nil (already closed). An early `return err` before end() leaves the
+// write lock held for ever — the serving goroutine then blocks on its next
+// response and the session is never closed.
+func ruleFieldEncoderEnded(c *Ctx, rule string) {
+	p := c.P
+	n := 0
+	for _, fn := range p.SrcFuncs("imapserver") {
+		var site *ssa.Call
+		var fld *types.Var
+		allInstrs(fn, func(i ssa.Instruction) {
+			call, ok := i.(*ssa.Call)
+			if !ok || callKey(call) != "(*responseEncoder).end" || len(call.Call.Args) == 0 {
+				return
+			}
+			if r, ok := loadedField(call.Call.Args[0]); ok && r.Field != nil && r.Owner != nil {
+				site, fld = call, r.Field
+			}
+		})
+		if site == nil {
+			continue
+		}
+		flow := mustFlow(fn, facts{}, func(f facts, i ssa.Instruction) facts {
+			if call, ok := i.(*ssa.Call); ok && callKey(call) == "(*responseEncoder).end" {
+				return f.with("ended")
+			}
+			return f
+		}, func(f facts, b *ssa.BasicBlock, s int) facts {
+			for _, a := range edgeAtoms(b, s) {
+				if r, ok := loadedField(a.V); ok && r.Field == fld && a.Nil == 1 {
+					f = f.with("ended") // nothing held
+				}
+			}
+			return f
+		})
+		bad := token.NoPos
+		for _, r := range returnsOf(fn) {
+			f, reach := flow.at(r)
+			if reach && !f.has("ended") {
+				bad = r.Pos()
+			}
+		}
+		n++
+		c.check(!bad.IsValid(), rule, fnKey(fn)+": the held response encoder is ended on every path", site.Pos(),
+			"every return has ended the encoder (or found none held)",
+			"a return (at "+p.pos(bad)+") leaves the response encoder held in "+fld.Name()+" un-ended: Conn.encMutex stays locked, the connection's goroutine blocks on its next write and the backend session is never closed")
+	}
+	if n == 0 {
+		c.unresolvedRoot("methods ending a response encoder held in a field")
+	}
+}
+
+// ruleEmbeddedMessageTypes: C03.r. Sibling agreement on which media types
+// carry the embedded-message extension of a body structure (envelope, nested
+// structure, line count): the client's parser expects those fields for
+// exactly the subtypes for which the in-memory backend supplies them (the
+// server's writer emits them whenever the backend did). A subtype the backend
+// knows and the client does not makes the client lose the whole FETCH.
+func ruleEmbeddedMessageTypes(c *Ctx, rule string) {
+	p := c.P
+	collect := func(pkg string) (map[string]bool, token.Pos) {
+		out := map[string]bool{}
+		raw := map[string]bool{}
+		var pos token.Pos
+		defer func() {
+			full := false
+			for s := range raw {
+				if strings.HasPrefix(s, "message/") {
+					full = true
+					out[strings.TrimPrefix(s, "message/")] = true
+				}
+			}
+			// type and subtype compared separately: "message" and the subtypes
+			if !full && raw["message"] {
+				for s := range raw {
+					if s != "message" && !strings.Contains(s, "/") {
+						out[s] = true
+					}
+				}
+			}
+		}()
+		for _, fn := range p.SrcFuncs(pkg) {
+			pd := postDominators(fn)
+			allInstrs(fn, func(i ssa.Instruction) {
+				st, ok := i.(*ssa.Store)
+				if !ok || isNilConst(st.Val) {
+					return
+				}
+				r, ok := fieldOf(st.Addr)
+				if !ok || r.Field == nil || r.Field.Name() != "MessageRFC822" {
+					return
+				}
+				pos = st.Pos()
+				for x := range transitiveDeps(fn, pd, st.Block()) {
+					ifi, isIf := x.Instrs[len(x.Instrs)-1].(*ssa.If)
+					if !isIf {
+						continue
+					}
+					seen := map[ssa.Value]bool{}
+					var walk func(v ssa.Value, d int)
+					walk = func(v ssa.Value, d int) {
+						if v == nil || seen[v] || d > 6 {
+							return
+						}
+						seen[v] = true
+						if s, ok := constString(v); ok && s != "" {
+							raw[strings.ToLower(s)] = true
+						}
+						if in, ok := v.(ssa.Instruction); ok {
+							for _, op := range in.Operands(nil) {
+								if *op != nil {
+									if _, isFn := (*op).(*ssa.Function); !isFn {
+										walk(*op, d+1)
+									}
+								}
+							}
+						}
+					}
+					walk(ifi.Cond, 0)
+				}
+			})
+		}
+		return out, pos
+	}
+	backend, _ := collect("imapserver/imapmemserver")
+	client, cpos := collect("imapclient")
+	if len(backend) == 0 || len(client) == 0 {
+		c.unresolvedRoot("the media-type tests guarding BodyStructureSinglePart.MessageRFC822 in backend and client")
+		return
+	}
+	var missing, all []string
+	for s := range backend {
+		all = append(all, s)
+		if !client[s] {
+			missing = append(missing, s)
+		}
+	}
+	sort.Strings(all)
+	sort.Strings(missing)
+	c.check(len(missing) == 0, rule, "embedded-message subtypes: backend ⊆ client", cpos,
+		"the client expects the embedded-message fields for every subtype the backend supplies them for ("+strings.Join(all, ", ")+")",
+		"the backend supplies (and the server writes) envelope, nested structure and line count for message/"+strings.Join(missing, ", message/")+", but the client's parser does not expect them for that subtype: the response fails to parse and the whole FETCH is lost")
+}
